@@ -1,4 +1,4 @@
-import Sop.Model.ValuePlacement
+import Sop.Lemmas.ValuePlacement
 /-! # C19 — persisted stores hold exactly what was written, under every storage option
 
 `run pl ops` is the model of a single-writer, crash-free history on one store with placement `pl`
@@ -7,56 +7,23 @@ operations, transaction by transaction.  The full-strength statement `Statement_
 cold reader sees exactly the specification's committed map — is FALSE for the code as it stands
 (`C19_counterexample_*`, replayed on the implementation by the directed corpus of harness/cmd/c19).
 
-Composition (`C19_persisted_eq_model`): (a) the B-tree is the ordered-collection specification and tells the
-tracker which item it touched — built into `St.apply` (hypothesis `C17_refines`, owned by C17); (b) a commit
-that runs installs the transaction's tree and count — built into `St.commit` (Model P, C01); (c) the placement
-invariant: every slot item reads back the value last written under its key. -/
+Composition: (a) the B-tree is the ordered-collection specification and tells the tracker which item it touched —
+built into `St.apply` (hypothesis `C17_refines`, owned by C17); (b) a commit that runs installs the transaction's
+tree and count — built into `St.commit` (Model P, C01); (c) the placement invariant: every slot item reads back the
+value last written under its key.
+
+What is proved, for EVERY legal history (any number of transactions, operations, commits, rollbacks):
+* `C19_persisted_eq_model_outside_findings` — every placement, hypothesis on the history alone
+  (`findingHistory pl ops = false`): actively persisted stores without a committed removes-only transaction
+  (C19-F1/F2; `C19_active_persisted_eq_model`), other stores without a remove that hands the tracker another item than
+  the one removed (C19-F3; `C19_nonactive_persisted_eq_model`);
+* `C19_persisted_eq_model_every_placement` — every placement under `commitsTracked` (no commit is skipped; a
+  condition on the model's run, it also covers histories with interior removes that keep something tracked);
+* `C19_active_remove_only_commit_diverges` — for actively persisted stores the excluded set is exact: the first
+  removes-only commit always loses its removes; `C19_excluded_set_witnesses` — the three finding witnesses.
+The specification, the invariants and their preservation are in `Sop.Lemmas.ValuePlacement`. -/
 namespace Sop.C19
 open Sop.ValuePlacement
-
-/-! ## specification -/
-
-abbrev Spec := List (Int × Val)
-
-structure SpecSt where
-  committed : Spec := []
-  work : Option Spec := none
-deriving Repr, Inhabited
-
-def SpecSt.apply (s : SpecSt) : Op → SpecSt
-  | .begin => { s with work := some s.committed }
-  | .add k v => match s.work with | some w => { s with work := some ((k, v) :: w) } | none => s
-  | .update k v => match s.work with
-    | some w => { s with work := some (w.map (fun e => if e.1 == k then (e.1, v) else e)) }
-    | none => s
-  | .remove k _ => match s.work with | some w => { s with work := some (w.filter (fun e => e.1 != k)) } | none => s
-  | .commit => match s.work with | some w => { committed := w, work := none } | none => s
-  | .rollback => { s with work := none }
-
-def specRun (ops : List Op) : SpecSt := ops.foldl SpecSt.apply {}
-
-/-- what the cold reader sees: per slot item its key and the value it reads (`none` = unreadable / zero value) -/
-def view (b : Blobs) (slots : List Item) : List (Int × Option Val) := slots.map (fun it => (it.key, readItem b it))
-
-def specView (s : Spec) : List (Int × Option Val) := s.map (fun e => (e.1, some e.2))
-
-def hasK (s : Spec) (k : Int) : Bool := s.any (fun e => e.1 == k)
-
-/-- the histories the B-tree layer can produce (C17): one open transaction at a time; add only an absent key;
-update/remove only a present key; the item handed to `tracker.Remove` is some present item -/
-def legalFrom (s : SpecSt) : List Op → Bool
-  | [] => true
-  | op :: rest =>
-    (match op, s.work with
-      | .begin, none => true
-      | .add k _, some w => !hasK w k
-      | .update k _, some w => hasK w k
-      | .remove k via, some w => hasK w k && hasK w via
-      | .commit, some _ => true
-      | .rollback, some _ => true
-      | _, _ => false) && legalFrom (s.apply op) rest
-
-abbrev Legal (ops : List Op) : Prop := legalFrom {} ops = true
 
 /-- the property at full strength -/
 def Statement_C19 : Prop :=
@@ -77,7 +44,7 @@ theorem C19_counterexample_active_remove_only :
     Legal witnessRemoveOnly ∧
     view (run active witnessRemoveOnly).blobs (run active witnessRemoveOnly).slots
       = [(3, some (v 3)), (2, some (v 2)), (1, some (v 1))] ∧
-    specView (specRun witnessRemoveOnly).committed = [(3, some (v 3)), (1, some (v 1))] := by decide
+    specView (specRun witnessRemoveOnly).committed = [(3, some (v 3)), (1, some (v 1))] := by decide +kernel
 
 /-- (1b) … and when the removed item's value lives in its blob (an earlier transaction updated it) phase 2 still
 deletes that blob: the item is still in the tree, its value is gone -/
@@ -88,7 +55,7 @@ theorem C19_counterexample_active_value_destroyed :
     Legal witnessRemoveOnlyBlob ∧
     view (run active witnessRemoveOnlyBlob).blobs (run active witnessRemoveOnlyBlob).slots
       = [(2, none), (1, some (v 1))] ∧
-    specView (specRun witnessRemoveOnlyBlob).committed = [(1, some (v 1))] := by decide
+    specView (specRun witnessRemoveOnlyBlob).committed = [(1, some (v 1))] := by decide +kernel
 
 /-- (3) every placement: removing a key from an interior node hands the SUCCESSOR item to the tracker; when the
 successor was added by the same transaction its add is untracked, the tracker is empty, the commit is skipped -/
@@ -99,7 +66,7 @@ theorem C19_counterexample_interior_remove :
     Legal witnessInterior ∧
     view (run inNode witnessInterior).blobs (run inNode witnessInterior).slots
       = [(30, some (v 3)), (20, some (v 2)), (10, some (v 1))] ∧
-    specView (specRun witnessInterior).committed = [(25, some (v 6)), (30, some (v 3)), (10, some (v 1))] := by decide
+    specView (specRun witnessInterior).committed = [(25, some (v 6)), (30, some (v 3)), (10, some (v 1))] := by decide +kernel
 
 theorem C19_counterexample : ¬ Statement_C19 := by
   intro h
@@ -107,87 +74,8 @@ theorem C19_counterexample : ¬ Statement_C19 := by
   rw [C19_counterexample_active_remove_only.2.1, C19_counterexample_active_remove_only.2.2] at h1
   exact absurd h1 (by decide)
 
-/-! ## what commit does -/
-
-theorem commit_skipped (s : St) (w : Txn) (h : w.tracker.items = []) :
-    (s.commit w).slots = s.slots ∧ (s.commit w).count = s.count ∧ (s.commit w).work = none := by
-  simp [St.commit, h]
-
-theorem commit_installs (s : St) (w : Txn) (h : w.tracker.items ≠ []) :
-    (s.commit w).slots = w.slots ∧ (s.commit w).count = w.count ∧ (s.commit w).work = none := by
-  have : w.tracker.items.isEmpty = false := by
-    cases hh : w.tracker.items with
-    | nil => exact absurd hh h
-    | cons _ _ => rfl
-  simp [St.commit, this]
-
-/-! ## the tracker in actively persisted stores: removes are never tracked, adds/updates always are -/
-
-theorem set_items_ne_nil (t : Tracker) (u : Nat) (ci : CItem) : (t.set u ci).items ≠ [] := by
-  unfold Tracker.set
-  split
-  · rename_i h
-    intro hn
-    simp only [List.map_eq_nil_iff] at hn
-    simp [hn] at h
-  · simp
-
-theorem active_remove_untracked (pl : Placement) (h : pl.active = true) (t : Tracker) (it : Item) :
-    (trackerRemove pl false t it).items = t.items := by
-  simp [trackerRemove, h]
-
-theorem manageTail_items_ne_nil (t : Tracker) (u : Nat) (a : Action) (it : Item) (n : Nat) :
-    (manageTail t u a it n).t.items ≠ [] := by
-  unfold manageTail
-  split <;> exact set_items_ne_nil _ _ _
-
-theorem manage_preserves_ne_nil (t : Tracker) (u : Nat) (ci : CItem) (n : Nat) (h : t.items ≠ []) :
-    (manage t u ci n).t.items ≠ [] := by
-  unfold manage
-  split
-  · have key : ∀ (t1 : Tracker) (c : CItem), t1.items ≠ [] →
-        (if (t1.lookup u).isSome then t1.set u c else t1).items ≠ [] := by
-      intro t1 c h1
-      split
-      · exact set_items_ne_nil _ _ _
-      · exact h1
-    apply key
-    split <;> exact h
-  · split <;> exact manageTail_items_ne_nil _ _ _ _ _
-  · exact manageTail_items_ne_nil _ _ _ _ _
-  · exact h
-
-theorem activelyPersist_ne_nil (pl : Placement) (t : Tracker) (u : Nat) (ci : CItem) (b : Blobs) (n : Nat)
-    (h : t.items ≠ []) : (activelyPersist pl t u ci b n).1.t.items ≠ [] := by
-  unfold activelyPersist
-  split
-  · exact manage_preserves_ne_nil _ _ _ _ h
-  · exact h
-
-theorem trackerAdd_tracked (pl : Placement) (t : Tracker) (it : Item) (b : Blobs) (n : Nat) :
-    (trackerAdd pl t it b n).t.items ≠ [] := by
-  simp only [trackerAdd]
-  exact activelyPersist_ne_nil _ _ _ _ _ _ (set_items_ne_nil _ _ _)
-
-theorem lookup_some_ne_nil {t : Tracker} {u : Nat} {c : CItem} (h : t.lookup u = some c) : t.items ≠ [] := by
-  intro hn
-  simp [Tracker.lookup, hn] at h
-
-theorem trackerUpdate_tracked (pl : Placement) (t : Tracker) (it : Item) (b : Blobs) (n : Nat) :
-    (trackerUpdate pl t it b n).t.items ≠ [] := by
-  unfold trackerUpdate
-  split
-  · rename_i c hc
-    split
-    · exact activelyPersist_ne_nil _ _ _ _ _ _ (lookup_some_ne_nil hc)
-    · exact activelyPersist_ne_nil _ _ _ _ _ _ (set_items_ne_nil _ _ _)
-  · exact activelyPersist_ne_nil _ _ _ _ _ _ (set_items_ne_nil _ _ _)
-
 /-! ## (c) placement, locally: the item `UpdateCurrentItem` stores back into the slot reads back the new value,
 in every placement and for every tracker state -/
-
-theorem get_put_same (b : Blobs) (id : Nat) (x : Val) : (b.put id x).get? id = some x := by
-  simp [Blobs.put, Blobs.get?]
 
 theorem manageTail_reads_back (t : Tracker) (u : Nat) (a : Action) (it : Item) (n : Nat) (b : Blobs) (x : Val)
     (h : it.val = some x) :
@@ -224,224 +112,6 @@ theorem add_slot_inline (s : St) (w : Txn) (k : Int) (x : Val) :
 
 /-! ## (c) placement, whole histories: stores that are not actively persisted -/
 
-def kv (slots : List Item) : List (Int × Option Val) := slots.map (fun it => (it.key, it.val))
-
-theorem view_eq_kv_of_spec {slots : List Item} {sp : Spec} (h : kv slots = specView sp) (b : Blobs) :
-    view b slots = specView sp := by
-  rw [← h]
-  unfold view kv
-  apply List.map_congr_left
-  intro it hit
-  have : (it.key, it.val) ∈ specView sp := by rw [← h]; exact List.mem_map_of_mem hit
-  obtain ⟨e, _, he⟩ := List.mem_map.1 this
-  have hv : it.val = some e.2 := by
-    have := congrArg Prod.snd he
-    simpa using this.symm
-  simp [readItem, hv]
-
-/-- at every commit of the history the tracker holds at least one item (the commit is not skipped) -/
-def commitsTracked (s : St) : List Op → Bool
-  | [] => true
-  | .commit :: rest =>
-    (match s.work with | some w => !w.tracker.items.isEmpty | none => true) && commitsTracked (s.apply .commit) rest
-  | op :: rest => commitsTracked (s.apply op) rest
-
-theorem trackerUpdate_item_nonactive (pl : Placement) (h : pl.active = false) (t : Tracker) (it : Item) (b : Blobs) (n : Nat) :
-    (trackerUpdate pl t it b n).item = it := by
-  unfold trackerUpdate
-  split
-  · split <;> simp [activelyPersist, h]
-  · simp [activelyPersist, h]
-
-theorem rollback_eq (s : St) (w : Txn) :
-    (s.rollback w).slots = s.slots ∧ (s.rollback w).work = none ∧ (s.rollback w).place = s.place := by
-  unfold St.rollback; split <;> simp
-
-/-- the relation maintained along a history -/
-def Rel (s : St) (sp : SpecSt) : Prop :=
-  kv s.slots = specView sp.committed ∧
-  match s.work, sp.work with
-  | some w, some sw => kv w.slots = specView sw
-  | none, none => True
-  | _, _ => False
-
-theorem find_key {slots : List Item} {k : Int} {it : Item} (h : findKey slots k = some it) : it.key = k := by
-  have := List.find?_some h
-  simpa using this
-
-theorem kv_update_none {slots : List Item} {sw : Spec} {k : Int} (x : Val) (h : kv slots = specView sw)
-    (hn : findKey slots k = none) : kv slots = specView (sw.map (fun e => if e.1 == k then (e.1, x) else e)) := by
-  rw [h]
-  unfold specView
-  rw [List.map_map]
-  apply List.map_congr_left
-  intro e he
-  have hmem : (e.1, some e.2) ∈ kv slots := by rw [h]; exact List.mem_map_of_mem (f := fun e => (e.1, some e.2)) he
-  obtain ⟨it, hit, hite⟩ := List.mem_map.1 hmem
-  have hk : it.key = e.1 := congrArg Prod.fst hite
-  have : ¬ (it.key == k) = true := by
-    have := List.find?_eq_none.1 hn it hit
-    simpa using this
-  have hne : (e.1 == k) = false := by
-    rw [← hk]; simpa using this
-  have hne' : e.1 ≠ k := by simpa using hne
-  simp [hne']
-
-theorem kv_update_some {slots : List Item} {sw : Spec} {k : Int} (x : Val) (slot : Item) (h : kv slots = specView sw)
-    (hk : slot.key = k) :
-    kv (slots.map (fun it => if it.key == k then { slot with val := some x } else it))
-      = specView (sw.map (fun e => if e.1 == k then (e.1, x) else e)) := by
-  unfold kv specView at *
-  rw [List.map_map, List.map_map]
-  have : ∀ (l : List Item) (m : Spec), l.map (fun it => (it.key, it.val)) = m.map (fun e => (e.1, some e.2)) →
-      l.map ((fun it => (it.key, it.val)) ∘ (fun it => if it.key == k then { slot with val := some x } else it))
-        = m.map ((fun e => (e.1, some e.2)) ∘ (fun e => if e.1 == k then (e.1, x) else e)) := by
-    intro l
-    induction l with
-    | nil => intro m hm; cases m <;> simp_all
-    | cons a l ih =>
-      intro m hm
-      cases m with
-      | nil => simp at hm
-      | cons e m =>
-        simp only [List.map_cons, List.cons.injEq] at hm
-        obtain ⟨hhead, htail⟩ := hm
-        have hka : a.key = e.1 := congrArg Prod.fst hhead
-        have hva : a.val = some e.2 := congrArg Prod.snd hhead
-        simp only [List.map_cons, List.cons.injEq]
-        refine ⟨?_, ih m htail⟩
-        simp only [Function.comp]
-        by_cases hkk : (a.key == k) = true
-        · have : (e.1 == k) = true := by rw [← hka]; exact hkk
-          simp only [hkk, this, ↓reduceIte, hk]
-          have : k = e.1 := by
-            have := hkk; simp at this; rw [← this, hka]
-          simp [this]
-        · have hkk' : (a.key == k) = false := by simpa using hkk
-          have : (e.1 == k) = false := by rw [← hka]; exact hkk'
-          simp [this, hka, hva]
-  exact this slots sw h
-
-theorem kv_filter {slots : List Item} {sw : Spec} {k : Int} (h : kv slots = specView sw) :
-    kv (slots.filter (fun it => it.key != k)) = specView (sw.filter (fun e => e.1 != k)) := by
-  unfold kv specView at *
-  induction slots generalizing sw with
-  | nil => cases sw <;> simp_all
-  | cons a l ih =>
-    cases sw with
-    | nil => simp at h
-    | cons e m =>
-      simp only [List.map_cons, List.cons.injEq] at h
-      obtain ⟨hhead, htail⟩ := h
-      have hka : a.key = e.1 := congrArg Prod.fst hhead
-      have hva : a.val = some e.2 := congrArg Prod.snd hhead
-      simp only [List.filter_cons, hka]
-      split
-      · simp [hka, hva, ih htail]
-      · exact ih htail
-
-theorem step_rel (s : St) (sp : SpecSt) (op : Op) (hna : s.place.active = false) (hr : Rel s sp)
-    (hc : op = .commit → ∀ w, s.work = some w → w.tracker.items ≠ []) :
-    Rel (s.apply op) (sp.apply op) ∧ (s.apply op).place = s.place := by
-  obtain ⟨hcom, hw⟩ := hr
-  cases op with
-  | begin => exact ⟨⟨hcom, by simpa [St.apply, St.begin, SpecSt.apply] using hcom⟩, rfl⟩
-  | add k x =>
-    cases hsw : s.work with
-    | none =>
-      cases hpw : sp.work with
-      | none => simp [St.apply, SpecSt.apply, hsw, hpw, Rel, hcom]
-      | some sw => simp [hsw, hpw] at hw
-    | some w =>
-      cases hpw : sp.work with
-      | none => simp [hsw, hpw] at hw
-      | some sw =>
-        simp only [hsw, hpw] at hw
-        refine ⟨⟨by simpa [St.apply, hsw, St.add, SpecSt.apply, hpw] using hcom, ?_⟩, by simp [St.apply, hsw, St.add]⟩
-        simp only [St.apply, hsw, St.add, SpecSt.apply, hpw]
-        simp [kv, specView] at hw ⊢
-        exact hw
-  | update k x =>
-    cases hsw : s.work with
-    | none =>
-      cases hpw : sp.work with
-      | none => simp [St.apply, SpecSt.apply, hsw, hpw, Rel, hcom]
-      | some sw => simp [hsw, hpw] at hw
-    | some w =>
-      cases hpw : sp.work with
-      | none => simp [hsw, hpw] at hw
-      | some sw =>
-        simp only [hsw, hpw] at hw
-        cases hf : findKey w.slots k with
-        | none =>
-          refine ⟨⟨by simpa [St.apply, hsw, St.update, hf, SpecSt.apply, hpw] using hcom, ?_⟩, by simp [St.apply, hsw, St.update, hf]⟩
-          simp only [St.apply, hsw, St.update, hf, SpecSt.apply, hpw]
-          exact kv_update_none x hw hf
-        | some slot =>
-          refine ⟨⟨by simpa [St.apply, hsw, St.update, hf, SpecSt.apply, hpw] using hcom, ?_⟩, by simp [St.apply, hsw, St.update, hf]⟩
-          simp only [St.apply, hsw, St.update, hf, SpecSt.apply, hpw]
-          rw [trackerUpdate_item_nonactive _ hna]
-          exact kv_update_some x slot hw (find_key hf)
-  | remove k via =>
-    cases hsw : s.work with
-    | none =>
-      cases hpw : sp.work with
-      | none => simp [St.apply, SpecSt.apply, hsw, hpw, Rel, hcom]
-      | some sw => simp [hsw, hpw] at hw
-    | some w =>
-      cases hpw : sp.work with
-      | none => simp [hsw, hpw] at hw
-      | some sw =>
-        simp only [hsw, hpw] at hw
-        refine ⟨⟨by simpa [St.apply, hsw, St.remove, SpecSt.apply, hpw] using hcom, ?_⟩, by simp [St.apply, hsw, St.remove]⟩
-        simp only [St.apply, hsw, St.remove, SpecSt.apply, hpw]
-        exact kv_filter hw
-  | commit =>
-    cases hsw : s.work with
-    | none =>
-      cases hpw : sp.work with
-      | none => simp [St.apply, SpecSt.apply, hsw, hpw, Rel, hcom]
-      | some sw => simp [hsw, hpw] at hw
-    | some w =>
-      cases hpw : sp.work with
-      | none => simp [hsw, hpw] at hw
-      | some sw =>
-        simp only [hsw, hpw] at hw
-        have hne := hc rfl w hsw
-        obtain ⟨h1, _, h3⟩ := commit_installs s w hne
-        refine ⟨⟨by simpa [St.apply, hsw, SpecSt.apply, hpw, h1] using hw, by simp [St.apply, hsw, SpecSt.apply, hpw, h3]⟩, ?_⟩
-        simp only [St.apply, hsw, St.commit]
-        split <;> rfl
-  | rollback =>
-    cases hsw : s.work with
-    | none =>
-      cases hpw : sp.work with
-      | none => simp [St.apply, SpecSt.apply, hsw, Rel, hcom]
-      | some sw => simp [hsw, hpw] at hw
-    | some w =>
-      obtain ⟨r1, r2, r3⟩ := rollback_eq s w
-      refine ⟨⟨?_, ?_⟩, ?_⟩
-      · simp only [St.apply, hsw, SpecSt.apply, r1]; exact hcom
-      · simp only [St.apply, hsw, SpecSt.apply, r2]
-      · simp only [St.apply, hsw, r3]
-
-theorem run_rel (ops : List Op) : ∀ (s : St) (sp : SpecSt), s.place.active = false → Rel s sp →
-    commitsTracked s ops = true → Rel (ops.foldl St.apply s) (ops.foldl SpecSt.apply sp) := by
-  induction ops with
-  | nil => intro s sp _ hr _; exact hr
-  | cons op rest ih =>
-    intro s sp hna hr hct
-    have hc : op = .commit → ∀ w, s.work = some w → w.tracker.items ≠ [] := by
-      intro hop w hw
-      subst hop
-      simp only [commitsTracked, hw, Bool.and_eq_true, Bool.not_eq_true'] at hct
-      intro hn
-      simp [hn] at hct
-    have hrest : commitsTracked (s.apply op) rest = true := by
-      cases op <;> simp_all [commitsTracked]
-    obtain ⟨h1, h2⟩ := step_rel s sp op hna hr hc
-    exact ih _ _ (by rw [h2]; exact hna) h1 hrest
-
 /-- **C19, the part that holds.**  For a store that is not actively persisted (in node, separate segment,
 separate segment + global cache), after EVERY history in which no commit is skipped (the tracker holds an item
 at each commit), a cold reader sees exactly what the committed transactions wrote — whichever item the B-tree
@@ -457,7 +127,7 @@ def sampleOps : List Op :=
   [.begin, .add 1 (v 1), .add 2 (v 2), .commit, .begin, .update 1 (v 3), .remove 2 2, .commit, .begin, .add 5 (v 5), .rollback]
 
 example : commitsTracked { place := ⟨false, false, true⟩ } sampleOps = true ∧ Legal sampleOps ∧
-    specView (specRun sampleOps).committed = [(1, some (v 3))] := by decide
+    specView (specRun sampleOps).committed = [(1, some (v 3))] := by decide +kernel
 
 /-- in an actively persisted store the tracker is non-empty at commit exactly when an add or update reached it:
 removes never do (`active_remove_untracked`), adds and updates always do (`trackerAdd_tracked`,
@@ -478,6 +148,161 @@ theorem C19_candidate_repair_on_witnesses :
     view (runFixed active witnessRemoveOnly).blobs (runFixed active witnessRemoveOnly).slots
       = specView (specRun witnessRemoveOnly).committed ∧
     view (runFixed active witnessRemoveOnlyBlob).blobs (runFixed active witnessRemoveOnlyBlob).slots
-      = specView (specRun witnessRemoveOnlyBlob).committed := by decide
+      = specView (specRun witnessRemoveOnlyBlob).committed := by decide +kernel
+
+/-! ## (c) placement, whole histories: actively persisted stores
+
+The invariant (`AInv`: id freshness, blob frame, tracker entries) and its preservation by every operation are in
+`Sop.Lemmas.ValuePlacement`.  The excluded histories are exactly those of the open findings C19-F1/F2: a committed
+transaction that consists of removes only (`NoRemoveOnlyCommit` is the complement, a predicate on the history
+alone).  C19-F3 (the successor handed to `tracker.Remove`) cannot hurt an actively persisted store — its removes
+never reach the tracker — so `via` is unconstrained; C19-F4 is about where a value is stored, not what is read. -/
+
+/-- **C19 for actively persisted stores.**  After EVERY legal history (any number of transactions, adds, updates —
+also of a key added or already updated by the same transaction —, removes — whichever item the B-tree hands to
+`tracker.Remove` —, commits, rollbacks) in which no committed transaction consists of removes only, a cold reader
+sees exactly what the committed transactions wrote. -/
+theorem C19_active_persisted_eq_model (pl : Placement) (ha : pl.active = true) (ops : List Op) (hl : Legal ops)
+    (hx : NoRemoveOnlyCommit ops) :
+    view (run pl ops).blobs (run pl ops).slots = specView (specRun ops).committed :=
+  (run_ainv ops { place := pl } {} (false, false) (ainv_init pl ha) hl hx).good.1
+
+/-- the hypotheses are satisfiable by a non-trivial history: an update of a key added by the same transaction, two
+updates of one key in one transaction (inline → blob → new blob), an interior remove (the item handed to the tracker
+is not the one removed), an empty transaction, a rolled-back update of a value that lives in its blob -/
+def sampleActive : List Op :=
+  [.begin, .add 1 (v 1), .update 1 (v 2), .add 2 (v 3), .commit,
+   .begin, .update 1 (v 4), .update 1 (v 5), .remove 2 1, .commit,
+   .begin, .commit,
+   .begin, .update 1 (v 6), .rollback]
+
+example : Legal sampleActive ∧ NoRemoveOnlyCommit sampleActive ∧
+    specView (specRun sampleActive).committed = [(1, some (v 5))] ∧
+    (run active sampleActive).slots = [⟨3, 1, none, true⟩] := by decide +kernel
+
+/-! ### the excluded set -/
+
+/-- the histories of the open findings, as a predicate on the history alone: an actively persisted store with a
+committed removes-only transaction (C19-F1, F2); any other store with a remove that hands the tracker another item
+than the one removed (C19-F3) -/
+def findingHistory (pl : Placement) (ops : List Op) : Bool :=
+  if pl.active then !noRemoveOnlyFrom (false, false) ops else !ops.all noInterior
+
+/-- inside the excluded set the statement fails on the model exactly as on the code (the three witnesses are
+directed corpus cases of harness/cmd/c19): C19-F1 (`witnessRemoveOnly`), C19-F2 (`witnessRemoveOnlyBlob`) and
+C19-F3 (`witnessInterior`, in a store that is not actively persisted) are in it and do not read back … -/
+theorem C19_excluded_set_witnesses :
+    (findingHistory active witnessRemoveOnly = true ∧ Legal witnessRemoveOnly ∧
+      view (run active witnessRemoveOnly).blobs (run active witnessRemoveOnly).slots
+        ≠ specView (specRun witnessRemoveOnly).committed) ∧
+    (findingHistory active witnessRemoveOnlyBlob = true ∧ Legal witnessRemoveOnlyBlob ∧
+      view (run active witnessRemoveOnlyBlob).blobs (run active witnessRemoveOnlyBlob).slots
+        ≠ specView (specRun witnessRemoveOnlyBlob).committed) ∧
+    (findingHistory inNode witnessInterior = true ∧ Legal witnessInterior ∧
+      view (run inNode witnessInterior).blobs (run inNode witnessInterior).slots
+        ≠ specView (specRun witnessInterior).committed) := by decide +kernel
+
+/-- … while the history of C19-F3 is NOT a finding history of an actively persisted store: there it reads back right
+(removes never reach the tracker, the add stays tracked) -/
+theorem C19_interior_remove_harmless_when_active :
+    findingHistory active witnessInterior = false ∧ Legal witnessInterior ∧
+    commitsTracked { place := active } witnessInterior = true ∧
+    commitsTracked { place := inNode } witnessInterior = false ∧
+    view (run active witnessInterior).blobs (run active witnessInterior).slots
+      = specView (specRun witnessInterior).committed :=
+  ⟨by decide +kernel, by decide +kernel, by decide +kernel, by decide +kernel,
+   C19_active_persisted_eq_model active rfl witnessInterior (by decide +kernel) (by decide +kernel)⟩
+
+/-- a history whose last operation is the first commit of a removes-only transaction: the cold reader does NOT see
+what was written (the removed keys are still there) -/
+theorem C19_active_remove_only_commit_diverges (pl : Placement) (ha : pl.active = true) (ops : List Op)
+    (hl : Legal (ops ++ [.commit])) (hx : NoRemoveOnlyCommit ops) (hbad : ¬ NoRemoveOnlyCommit (ops ++ [.commit])) :
+    view (run pl (ops ++ [.commit])).blobs (run pl (ops ++ [.commit])).slots
+      ≠ specView (specRun (ops ++ [.commit])).committed := by
+  have hl' : legalFrom {} ops = true ∧ opLegal (ops.foldl SpecSt.apply {}) .commit = true := by
+    have := hl; unfold Legal at this; rw [legalFrom_append, Bool.and_eq_true] at this; exact this
+  have hi := run_ainv ops { place := pl } {} (false, false) (ainv_init pl ha) hl'.1 hx
+  have hflags : (ops.foldl flagStep (false, false)).1 = false ∧ (ops.foldl flagStep (false, false)).2 = true := by
+    unfold NoRemoveOnlyCommit at hbad hx
+    rw [noRemoveOnlyFrom_append_commit, hx] at hbad
+    cases h1 : (ops.foldl flagStep (false, false)).1 <;> cases h2 : (ops.foldl flagStep (false, false)).2 <;>
+      simp [h1, h2] at hbad ⊢
+  intro hEq
+  have hlen := congrArg List.length hEq
+  rw [view_length, specView_length] at hlen
+  unfold run specRun at hlen
+  rw [List.foldl_append, List.foldl_append] at hlen
+  simp only [List.foldl_cons, List.foldl_nil] at hlen
+  generalize ops.foldl St.apply { place := pl } = s at hi hlen
+  generalize ops.foldl SpecSt.apply {} = sp at hi hlen hl'
+  obtain ⟨_, _, hC, hwk⟩ := hi
+  unfold WorkInv at hwk
+  cases hpw : sp.work with
+  | none => simp [opLegal, hpw] at hl'
+  | some sw =>
+    cases hsw : s.work with
+    | none => simp [hsw, hpw] at hwk
+    | some w =>
+      simp only [hsw, hpw] at hwk
+      have hlt := hwk.lt hflags.1 hflags.2
+      have hitems := hwk.ge hflags.1
+      have hwlen : w.slots.length = sw.length := by
+        have := congrArg List.length hwk.good.1
+        rwa [view_length, specView_length] at this
+      simp only [St.apply, hsw, SpecSt.apply, hpw, (commit_skipped_proj s w hitems).1] at hlen
+      omega
+
+/-- **C19, every placement.**  After every legal history in which no commit is skipped (the tracker holds an item
+at each commit), a cold reader sees exactly what the committed transactions wrote. -/
+theorem C19_persisted_eq_model_every_placement (pl : Placement) (ops : List Op) (hl : Legal ops)
+    (hct : commitsTracked { place := pl } ops = true) :
+    view (run pl ops).blobs (run pl ops).slots = specView (specRun ops).committed := by
+  cases ha : pl.active with
+  | false => exact C19_persisted_eq_model pl ha ops hct
+  | true =>
+    exact C19_active_persisted_eq_model pl ha ops hl
+      (commitsTracked_noRemoveOnly ops _ _ (false, false) (ainv_init pl ha) hl hct)
+
+/-! ## (c) placement, whole histories: stores that are not actively persisted, hypothesis on the history alone
+
+`C19_persisted_eq_model` needs `commitsTracked`, a condition on the model's run.  When every remove hands the tracker
+the item it removes (`NoInteriorRemove`: no C19-F3) a skipped commit is harmless — the tracker is empty only when the
+transaction removed exactly what it added (`ninv_skip`: the working tree IS the committed tree) — so the condition
+can be dropped. -/
+
+/-- **C19 for stores that are not actively persisted, hypothesis on the history alone.**  After every legal history
+in which every remove hands the tracker the item it removes, a cold reader sees exactly what the committed
+transactions wrote: a commit is skipped only when the transaction changed nothing (it removed what it added). -/
+theorem C19_nonactive_persisted_eq_model (pl : Placement) (hna : pl.active = false) (ops : List Op) (hl : Legal ops)
+    (hx : NoInteriorRemove ops) :
+    view (run pl ops).blobs (run pl ops).slots = specView (specRun ops).committed := by
+  have h := run_nainv ops { place := pl } {} hna
+    ⟨by simp [Rel, kv, specView], ⟨(fun _ h => by cases h), (fun _ h => by cases h), (fun _ h => by cases h)⟩, by simp [NAWork]⟩ hl hx
+  exact view_eq_kv_of_spec h.rel.1 _
+
+/-- satisfiable, and weaker than `commitsTracked` on such histories: the second and third commit are skipped -/
+def sampleSkip : List Op :=
+  [.begin, .add 1 (v 1), .commit, .begin, .add 7 (v 7), .update 7 (v 8), .remove 7 7, .commit, .begin, .commit,
+   .begin, .update 1 (v 2), .commit]
+
+example : Legal sampleSkip ∧ NoInteriorRemove sampleSkip ∧ commitsTracked { place := inNode } sampleSkip = false ∧
+    specView (specRun sampleSkip).committed = [(1, some (v 2))] := by decide +kernel
+
+/-- **C19, every placement, hypothesis on the history alone**: outside the histories of the open findings a cold
+reader sees exactly what the committed transactions wrote. -/
+theorem C19_persisted_eq_model_outside_findings (pl : Placement) (ops : List Op) (hl : Legal ops)
+    (hx : findingHistory pl ops = false) :
+    view (run pl ops).blobs (run pl ops).slots = specView (specRun ops).committed := by
+  unfold findingHistory at hx
+  cases ha : pl.active with
+  | true =>
+    rw [ha] at hx
+    exact C19_active_persisted_eq_model pl ha ops hl (by simpa using hx)
+  | false =>
+    rw [ha] at hx
+    exact C19_nonactive_persisted_eq_model pl ha ops hl (by simpa using hx)
+
+example : findingHistory active sampleActive = false ∧ findingHistory inNode sampleSkip = false ∧
+    findingHistory ⟨false, false, true⟩ sampleOps = false := by decide +kernel
 
 end Sop.C19
